@@ -188,7 +188,9 @@ def h_storage(ctx, skeleton, n, args=None, deleting=(), sym_sign=(), fixed=None,
     for t in stamps:
         d = need[t] + freed[t] + dumps[t]
         ctx.eq(delta_code.get(t, 0), d, "storage_delta = replicated writes + deletions - expiries (per time stamp)")
-        running = running + d
+        # the cumulative sum, sizing and activity clauses are stated over the model's own delta, so that each clause
+        # fails on its own
+        running = running + delta_code.get(t, 0)
         ctx.eq(cum_code.get(t, 0), running, "cumulative need = initial need + running sum of deltas")
         ctx.le(0, cum_code.get(t, 0), "accepted => cumulative storage need never negative")
         ctx.le(cum_code.get(t, 0), nb.get(t, 0) * cap, "instances x capacity cover the cumulative need")
@@ -198,7 +200,8 @@ def h_storage(ctx, skeleton, n, args=None, deleting=(), sym_sign=(), fixed=None,
             ctx.eq(nb.get(t, 0), ceil_(running / cap), "instances = ceil(cumulative need / capacity)")
         else:
             ctx.eq(nb.get(t, 0), env.get("st.fixed_nb_of_instances", fixed), "fixed storage instance count honoured exactly")
-        act = (ite(_abs(need[t]) >= _abs(freed[t]), _abs(need[t]), _abs(freed[t])) + _abs(dumps[t])) / cap
+        dump_t = delta_code.get(t, 0) - need[t] - freed[t]
+        act = (ite(_abs(need[t]) >= _abs(freed[t]), _abs(need[t]), _abs(freed[t])) + _abs(dump_t)) / cap
         ctx.eq(active.get(t, 0), ite(act <= nb.get(t, 0), act, nb.get(t, 0)),
                "active instances = min((max(|written|,|freed|)+|expired|)/capacity, instances) per time stamp")
 
